@@ -256,3 +256,58 @@ def property_cases():
                 c["prog"]["funcs"][0]["lrefs"] = [{"l": pcs["t"], "l2": 0, "d": 0}]       # the jmpi target is a label known to lref data
             out.append(c)
     return out
+
+
+def jcall_cases():
+    """jcall / jret: the callee (no arguments, no results) returns to a label of the caller whose address it finds in a global
+    variable tied to a hard register or in memory; the continuation label is reachable in no other way.  Shapes: one
+    continuation, a continuation chosen by the callee out of two, a jcall in a loop, work (an external call, an alloca)
+    in the callee before it leaves, values of the caller live across the jcall."""
+    out = []
+    GV = {"k": "greg"}
+    GD = {"k": "dref", "b": 2}
+    SAVE, A, B, ACC, LAB, T, CNT, P = 9, 2, 3, 4, 5, 6, 7, 8
+    jcall = {"op": "jcall", "callee": {"k": "func", "f": 2}}
+    for via in ("gvar", "mem"):
+        for shape in ("one", "two", "loop", "work", "work_call_first", "work_call_only"):
+            for a, b in ((10, 0), (-3, 1), (1 << 33, 2)):
+                # callee
+                h = []
+                if via == "gvar":
+                    h += [ins("mov", R(1), GV)]
+                else:
+                    h += [ins("mov", R(2), GD), ins("mov", R(1), M("i64", 0, 2))]
+                if shape == "work":
+                    h += [ins("alloca", R(3), I(32)), ins("mov", M("i64", 8, 3), I(77)),
+                          {"op": "call", "callee": {"k": "ext"}, "res": [R(4)], "args": [I(6), M("i64", 8, 3)]}]
+                elif shape == "work_call_first":         # the return address lives across the call, then the frame grows
+                    h += [{"op": "call", "callee": {"k": "ext"}, "res": [R(4)], "args": [I(6), I(5)]}, ins("alloca", R(3), I(32)), ins("mov", M("i64", 8, 3), R(4))]
+                elif shape == "work_call_only":
+                    h += [{"op": "call", "callee": {"k": "ext"}, "res": [R(4)], "args": [I(6), I(5)]}]
+                if shape == "two":       # the second label address is in the next memory word / the callee picks by a flag in gdat
+                    h += [ins("mov", R(2), GD), br("bf", "k", M("i64", 16, 2)), ins("mov", R(1), M("i64", 8, 2)), "k"]
+                h += [{"op": "jret", "s": [R(1)]}]
+                hins, _ = progs.assemble(h)
+                helper = {"name": "g1", "params": [], "res": [], "regty": ["i"] * 4, "lrefs": [], "gvar": via == "gvar", "insns": hins}
+                setlab = (lambda lab, off=0: [{"op": "laddr", "d": R(LAB), "l": lab}] + ([ins("mov", GV, R(LAB))] if via == "gvar" and off == 0 else
+                                                                                        [ins("mov", R(P), GD), ins("mov", M("i64", off, P), R(LAB))]))
+                pre = [ins("mov", R(A), M("i64", 0, 1)), ins("mov", R(B), M("i64", 8, 1)), ins("mov", R(ACC), I(0))]
+                if via == "gvar":
+                    pre = [ins("mov", R(SAVE), GV)] + pre
+                if shape in ("one", "work", "work_call_first", "work_call_only"):
+                    body = setlab("c1") + [ins("add", R(T), R(A), I(5)), jcall, ins("mov", R(ACC), I(999)), "c1", ins("add", R(ACC), R(ACC), R(T))]
+                elif shape == "two":
+                    body = setlab("c1") + setlab("c2", 8) + [ins("mov", R(P), GD), ins("mov", M("i64", 16, P), R(B)), ins("add", R(T), R(A), I(5)), jcall,
+                                                            ins("mov", R(ACC), I(999)), "c1", ins("add", R(ACC), R(ACC), I(100)),
+                                                            "c2", ins("add", R(ACC), R(ACC), R(T))]
+                else:
+                    body = [ins("mov", R(CNT), I(0)), "lp"] + setlab("c1") + [ins("add", R(T), R(A), R(CNT)), jcall, ins("mov", R(ACC), I(999)),
+                            "c1", ins("add", R(ACC), R(ACC), R(T)), ins("add", R(CNT), R(CNT), I(1)), br("blt", "lp", R(CNT), I(3))]
+                post = ([ins("mov", GV, R(SAVE))] if via == "gvar" else []) + [ins("mov", M("i64", 192, 1), R(ACC)), {"op": "ret", "s": [R(ACC)]}]
+                insns, _ = progs.assemble(pre + body + post)
+                w = lambda v: (v & ((1 << 64) - 1)).to_bytes(8, "little")
+                c = progs.family_case(insns, 9, w(a) + w(b))
+                c["prog"]["funcs"][0]["gvar"] = via == "gvar"
+                c["prog"]["funcs"].append(helper)
+                out.append(c)
+    return out
